@@ -72,7 +72,7 @@ def main():
                 s, sim = sonar_an[c["b"]]
                 sim.setVoltage(c["mv"][0] / c["mv"][1] / 1000.0)
                 r = s.get()
-            elif k in ("pressure", "calib"):
+            elif k in ("pressure", "calib", "recalib"):
                 vcc = c["vcc"][0] / c["vcc"][1]
                 if vcc not in press:
                     s = REVAnalogPressureSensor(chan, voltage_in=vcc)
@@ -83,6 +83,9 @@ def main():
                     sim.setVoltage(c["v"][0] / c["v"][1])
                     r = s.pressure
                 else:
+                    if k == "recalib":
+                        sim.setVoltage(c["vo1"][0] / c["vo1"][1])
+                        s.calibrate(c["p1"][0] / c["p1"][1])
                     sim.setVoltage(c["vo"][0] / c["vo"][1])
                     s.calibrate(c["p"][0] / c["p"][1])
                     r = s.pressure
